@@ -55,7 +55,7 @@ LDLIBS_STUB := -lssl -lcrypto -lpthread -lm
 # symbols of libc intercepted at link time in library + harness objects
 WRAP_SYMS := send recv connect accept4 socket close bind listen epoll_create1 \
              epoll_ctl eventfd timerfd_create poll fopen open unlink \
-             setsockopt getsockopt
+             setsockopt getsockopt epoll_wait ppoll select nanosleep usleep sleep
 # internal seams: calls across translation units inside libxcm
 WRAP_TP := xcm_tp_socket_send xcm_tp_socket_receive xcm_tp_socket_finish
 WRAP := $(foreach s,$(WRAP_SYMS) $(WRAP_TP),-Wl,--wrap=$(s))
@@ -102,9 +102,13 @@ $(B)/bin/tconn_exec: $(B)/harness/tconn_exec.o $(SHIM_OBJ) $(CARES_STUB_OBJ) $(L
 	@mkdir -p $(dir $@)
 	@$(CC) $(SAN) -o $@ $^ $(WRAP) $(LDLIBS_STUB)
 
-$(B)/bin/life_exec: $(B)/harness/life_exec.o $(SHIM_OBJ) $(LIB_OBJ)
+# C08: own shim (shim/shim_life.c) with its own interposition list; shim.o is not linked
+LIFE_WRAP := $(foreach s,send recv connect accept4 socket close bind listen epoll_create1 epoll_ctl eventfd \
+             timerfd_create timerfd_settime fopen fclose open unlink setsockopt getsockopt shutdown dup dup2 fcntl,\
+             -Wl,--wrap=$(s))
+$(B)/bin/life_exec: $(B)/harness/life_exec.o $(B)/shim/shim_life.o $(LIB_OBJ)
 	@mkdir -p $(dir $@)
-	@$(CC) $(SAN) -o $@ $^ $(WRAP) $(LDLIBS_REAL)
+	@$(CC) $(SAN) -o $@ $^ $(LIFE_WRAP) $(LDLIBS_REAL)
 
 $(B)/bin/ctl_exec: $(B)/harness/ctl_exec.o $(SHIM_OBJ) $(LIB_OBJ) $(CTLCLI_OBJ)
 	@mkdir -p $(dir $@)
@@ -114,9 +118,12 @@ $(B)/bin/tlsmx_exec: $(B)/harness/tlsmx_exec.o $(SHIM_OBJ) $(LIB_OBJ)
 	@mkdir -p $(dir $@)
 	@$(CC) $(SAN) -o $@ $^ $(WRAP) $(LDLIBS_REAL)
 
-$(B)/bin/creds_exec: $(B)/harness/creds_exec.o $(SHIM_OBJ) $(LIB_OBJ)
+# creds_exec has its own interposition (shim/shim_creds.c): credential-file accesses, SSL_CTX life, ctx_store seam
+WRAP_CREDS := $(foreach s,stat lstat fopen open SSL_CTX_new SSL_CTX_free SSL_CTX_up_ref SSL_new \
+                ctx_store_get_ctx ctx_store_put,-Wl,--wrap=$(s))
+$(B)/bin/creds_exec: $(B)/harness/creds_exec.o $(B)/shim/shim_creds.o $(LIB_OBJ)
 	@mkdir -p $(dir $@)
-	@$(CC) $(SAN) -o $@ $^ $(WRAP) $(LDLIBS_REAL)
+	@$(CC) $(SAN) -o $@ $^ $(WRAP_CREDS) $(LDLIBS_REAL)
 
 # threads harness: no shim (the interposition tables are not thread-safe); use VARIANT=tsan
 $(B)/bin/thr_exec: $(B)/harness/thr_exec.o $(LIB_OBJ)
@@ -131,6 +138,11 @@ $(B)/bin/xcmrelay: $(RELAY_OBJ) $(REPO_UTIL_OBJ) $(LIB_OBJ)
 $(B)/bin/relay_exec: $(B)/harness/relay_exec.o $(LIB_OBJ)
 	@mkdir -p $(dir $@)
 	@$(CC) $(SAN) -o $@ $^ $(LDLIBS_REAL)
+
+# second relay binary: the same tool with small kernel buffers on its TCP sockets (shim/shim_relay.c, C20_SNDBUF/C20_RCVBUF)
+$(B)/bin/xcmrelay_sb: $(RELAY_OBJ) $(REPO_UTIL_OBJ) $(B)/shim/shim_relay.o $(LIB_OBJ)
+	@mkdir -p $(dir $@)
+	@$(CC) $(SAN) -o $@ $^ -Wl,--wrap=socket $(LDLIBS_REAL) -levent
 
 clean:
 	rm -rf $(BROOT)
